@@ -209,7 +209,11 @@ pub fn bad_menu(cfg: &Cfg) -> Vec<Op> {
         ops.push(Op::Bad(Bad::MaskLen(d)));
         ops.push(Op::Bad(Bad::WrapMaskLen(d)));
         ops.push(Op::Bad(Bad::WrapPartialMaskLen(d)));
+        ops.push(Op::Bad(Bad::WrapInChans(d)));
+        ops.push(Op::Bad(Bad::WrapPartialInChans(d)));
     }
+    ops.push(Op::Bad(Bad::WrapInShort(0, 1)));
+    ops.push(Op::Bad(Bad::WrapInShort((n - 1) as u8, 3)));
     for c in 0..n.min(2) as u8 {
         for how in 1..=3u8 {
             ops.push(Op::Bad(Bad::InShort(c, how)));
@@ -364,7 +368,7 @@ pub fn explore_sys(spec: &Spec, make: Factory, journal: Journal) -> Result<Outco
             if nd < spec.bound || (!spec.final_layer.is_empty() && (steps == 0 || !spec.final_layer_first_only)) {
                 let g = live.getters();
                 let devs = if nd < spec.bound {
-                    deviations(cfg, if nd == 0 { spec.alpha } else { spec.alpha_deep }, &g, &st, nd + 1 >= spec.bound)
+                    deviations(cfg, if nd == 0 { spec.alpha } else if nd == 1 { spec.alpha_deep } else { Alpha::Ratio }, &g, &st, nd + 1 >= spec.bound)
                 } else {
                     spec.final_layer.clone()
                 };
